@@ -1,0 +1,33 @@
+//go:build verif
+
+// Contracts for package output (compiled only with -tags=verif; checked by /verif/bin/govc).
+package output
+
+// The registry fans work out to a goroutine pool (pond); the three entry points are under assumed contracts here.
+// Their handlers are the subject of C06/C07.
+
+//@ func (*Registry).LoadOutputs(r, ctx, target, targetResult, progress) (err)
+//@   trusted
+//@   modifies target.OutputsLoaded, target.OutputHash, target.CacheTime
+//@   ensures [loaded_flag] err == nil ==> target.OutputsLoaded
+//@   ensures [output_hash_from_result] err == nil && !old(target.OutputsLoaded) ==> target.OutputHash == targetResult.OutputHash
+//@   ensures [already_loaded_untouched] old(target.OutputsLoaded) ==> target.OutputHash == old(target.OutputHash)
+//@   ensures [failure_leaves_flag] err != nil ==> target.OutputsLoaded == old(target.OutputsLoaded) && target.OutputHash == old(target.OutputHash)
+//@   ghostset target.restoreTried := true
+//@   ghostset target.restored := err == nil
+
+//@ func (*Registry).WriteOutputs(r, ctx, target, progress) (res, err)
+//@   trusted
+//@   pure
+//@   allocates res
+//@   ensures [result_shape] err == nil ==> res != nil && res.ChangeHash == target.ChangeHash
+//@   ensures [nil_on_error] err != nil ==> res == nil
+//@   ghostset res.complete := err == nil
+//@   ghostset target.outputsStored := err == nil
+
+//@ func (*Registry).GetNoCacheOutputHash(r, ctx, target) (res, err)
+//@   trusted
+//@   pure
+//@   allocates res
+//@   ensures [result_shape] err == nil ==> res != nil && res.ChangeHash == target.ChangeHash && len(res.Outputs) == 0
+//@   ensures [nil_on_error] err != nil ==> res == nil
